@@ -13,6 +13,7 @@ void harness(void)
 {
   int in_k = K, in_m = M, in_bs = nondet_int();
   __CPROVER_assume(in_bs >= 2 && in_bs % 2 == 0);
+  g_t = nondet_int();   /* ghost index: arbitrary (globals are zero-initialised unless assigned) */
   __CPROVER_assume(0 <= g_t && g_t < in_bs);
   char *data[NMAX], *parity[NMAX];
   uint16_t d0[NMAX];
